@@ -109,7 +109,7 @@ def route(cx, chk, cfg, F, f, name):
         counts[cls] = counts.get(cls, 0) + 1
     need = {"put": ("hit-frequent", "hit-recent", "ghost-hit", "miss"), "get": ("hit-frequent", "hit-recent", "miss"), "get_mut": ("hit-frequent", "hit-recent", "miss")}[name]
     for k in need:
-        if counts.get(k, 0) < 1:
+        if ok and counts.get(k, 0) < 1:
             raise AnalysisError("C08: no %s path in %s (%s)" % (k, f["q"], cfg))
     if name == "put":
         dirs = set((a, b) for (r, a, b) in FALLBACKS)
